@@ -119,6 +119,55 @@ theorem live_reader_agrees_with_reader (ps : Nat) (crc : Crc) (hps : WF ps) (F :
   rw [h0] at hc
   exact htoks.out_of_nil hc.symm
 
+/-- The same for a file whose last page is still open (whole fragments, not yet padded) — the state of
+    the active segment after any `Log`. -/
+theorem live_reader_open_file (ps : Nat) (crc : Crc) (hps : WF ps) (full last : Bytes)
+    (hF : PagesOK ps crc full) (hl : Frames crc last) (hll : last.length ≤ ps) (out : List Bytes) (e : Nat)
+    (hr : rloop ps crc RState.init (full ++ last) = (out, .eof e)) (chunks : List Bytes)
+    (hc : chunks.flatten = full ++ last) :
+    (liveRun ps crc LState.init [] chunks).length = chunks.length ∧
+    (∀ o ∈ liveRun ps crc LState.init [] chunks, o.2 = LStatus.eof) ∧
+    ((liveRun ps crc LState.init [] chunks).map (·.1)).flatten = out := by
+  have htoks : LToks ps crc 0 0 [] (full ++ last) out := ltoks_of_open hps.2 hF hl hll hr
+  refine liveRun_spec hps.1 hps.2 chunks LState.init [] (full ++ last) out
+    ⟨⟨Nat.le_refl _, by simp [LState.init], Nat.le_refl _, Nat.zero_le _⟩, htoks, by simp [LState.init, hc]⟩ ?_
+  intro h0
+  rw [h0] at hc
+  exact htoks.out_of_nil hc.symm
+
+/-- **Promptness.** Once the reader has observed exactly the bytes of such a file (in any number of
+    steps), it has returned exactly the file's records — whatever is appended to the file afterwards
+    (`later`: any bytes at all).  With `live_reader_active_segment`: after every `Log` the tailing reader
+    has returned every record logged so far, no more, no fewer. -/
+theorem live_reader_prompt (ps : Nat) (crc : Crc) (hps : WF ps) (full last : Bytes)
+    (hF : PagesOK ps crc full) (hl : Frames crc last) (hll : last.length ≤ ps) (out : List Bytes) (e : Nat)
+    (hr : rloop ps crc RState.init (full ++ last) = (out, .eof e)) (chunks later : List Bytes)
+    (hc : chunks.flatten = full ++ last) :
+    let seen := (liveRun ps crc LState.init [] (chunks ++ later)).take chunks.length
+    seen.length = chunks.length ∧ (∀ o ∈ seen, o.2 = LStatus.eof) ∧ (seen.map (·.1)).flatten = out := by
+  intro seen
+  have e1 : seen = liveRun ps crc LState.init [] chunks := liveRun_take ps crc chunks later LState.init []
+  rw [e1]
+  exact live_reader_open_file ps crc hps full last hF hl hll out e hr chunks hc
+
+/-- The active segment after ANY sequence of `Log` calls (not closed, last page not padded) is such a
+    file, and its records are the tail of the records logged (the earlier ones are in the terminated
+    segments): tailing it returns exactly those. -/
+theorem live_reader_active_segment (ps pps : Nat) (crc : Crc) (hps : WF ps) (batches : List (List Bytes)) :
+    ∃ rsDone rsCur, rsDone ++ rsCur = batches.flatten ∧
+      rloop ps crc RState.init (logAll ps pps crc batches).cur =
+        (rsCur, .eof (logAll ps pps crc batches).cur.length) ∧
+      ∀ chunks later : List Bytes, chunks.flatten = (logAll ps pps crc batches).cur →
+        let seen := (liveRun ps crc LState.init [] (chunks ++ later)).take chunks.length
+        seen.length = chunks.length ∧ (∀ o ∈ seen, o.2 = LStatus.eof) ∧ (seen.map (·.1)).flatten = rsCur := by
+  obtain ⟨sr, rsCur, a, _, _, _, hcur, hrecs⟩ := Inv.logAll pps hps.1 hps.2 batches (crc := crc)
+  obtain ⟨_, full, tail, hcur', hfull, ht, hfr⟩ := LInv.logAll pps hps.1 batches (crc := crc)
+  refine ⟨(sr.map Prod.snd).flatten, rsCur, hrecs, hcur.rloop_eq, ?_⟩
+  intro chunks later hc
+  have hr := hcur.rloop_eq
+  rw [hcur'] at hr hc
+  exact live_reader_prompt ps crc hps full tail hfull hfr (by omega) rsCur _ hr chunks later hc
+
 /-- **The live half of C13**: `live_reader_eq_full` holds — every segment of every log, observed
     growing through any nondecreasing sequence of prefix lengths, is returned by the tailing reader
     record for record, with `io.EOF` (never an error) after every observation. -/
@@ -263,6 +312,22 @@ theorem payload_damage_detected_after_records (ps : Nat) (crc : Crc) (hdet : Crc
     rloop ps crc RState.init (A ++ (damagedFrame crc typ d d' ++ B)) =
       (out, .err .crc (A.length + 7 + d.length)) :=
   payload_damage_after_records ps crc hdet A B d d' typ a out hA hty hlen h16 hd
+
+/-- **One damaged payload byte anywhere in a written log.**  The byte stream of every closed log is a
+    concatenation `items` of fragments and zero runs (the tiling produced by the writer) such that for
+    EVERY fragment of it (payload `p`) and every `p'` differing from `p` in one byte, reading the damaged
+    stream returns a prefix `o` of the records written — exactly what the intact read has returned when
+    it reaches that fragment — and then a checksum error at the end of the damaged fragment. -/
+theorem payload_damage_detected_written (ps pps : Nat) (crc : Crc) (hps : WF ps) (hdet : CrcDetects1 crc)
+    (batches : List (List Bytes)) :
+    ∃ items : List Item,
+      segStream ps (segments ps (logAll ps pps crc batches)) = itemsBytes crc items ∧
+      ∀ (I1 : List Item) (typ : UInt8) (p : Bytes) (I2 : List Item), items = I1 ++ Item.frag typ p :: I2 →
+        ∃ o, o <+: batches.flatten ∧ Boundary ps crc (itemsBytes crc I1) o ∧
+          ∀ p', OneByteDiff p p' →
+            rloop ps crc RState.init (itemsBytes crc I1 ++ (damagedFrame crc typ p p' ++ itemsBytes crc I2)) =
+              (o, .err .crc ((itemsBytes crc I1).length + 7 + p.length)) :=
+  payload_damage_written ps pps crc hps.1 hps.2 hdet batches
 
 /-- The hypotheses are satisfiable: the first fragment of a log written with a detecting checksum. -/
 example (crc : Crc) (h : CrcDetects1 crc) :
